@@ -142,6 +142,38 @@ def malformed(rng, l, good_msop, good_difop):
     return k, bytes(rng.randrange(256) for _ in range(rng.choice([3, 8, 42, 100, 256, 1248])))
 
 
+def cali_table(rng, l, kind=None):
+    """(vert, horiz, raw_cali) for a DIFOP of lidar l; kind: valid | ff | range | edge | dup"""
+    n = l.laser
+    if kind is None:
+        kind = rng.choice(['valid', 'valid', 'valid', 'ff', 'range', 'edge', 'dup'])
+    vert = sorted(rng.sample(range(-2500, 1500), n)) if n <= 128 else None
+    rng.shuffle(vert)
+    horiz = [rng.randrange(-800, 800) for _ in range(n)]
+    raw = None
+    if kind == 'dup':
+        vert = [rng.choice([-100, 0, 250]) for _ in range(n)]
+    i = rng.randrange(n)
+    if kind == 'ff':
+        vert[i] = (0xFF, abs(vert[i]) * (10 if l.T.get('cali') == 'rs32' else 1))
+    elif kind == 'range':
+        which = rng.choice(['v', 'h'])
+        val = rng.choice([9000, 9001, 20000, -9001, -20000])
+        if which == 'v' or l.T.get('cali') == 'rs16':
+            vert[i] = val
+        else:
+            horiz[i] = val
+    elif kind == 'edge':
+        vert[i] = rng.choice([-9000, 8999])
+        horiz[rng.randrange(n)] = rng.choice([-9000, 8999, 2000, -2000])
+    if l.T.get('cali') == 'rs16':
+        # 3-byte magnitudes in 1e-4 deg; sign comes from the index (first 8 negative)
+        raw = [abs(v if not isinstance(v, tuple) else v[1]) * 100 + rng.choice([0, 1, 50, 99]) for v in vert]
+        if kind == 'ff':
+            kind = 'range'; raw[i] = rng.choice([900000, 1000000, 6553600, 16777215])
+    return kind, vert, horiz, raw
+
+
 class Scn:
     def __init__(self, name):
         self.lines = [f'S {name}']
@@ -167,3 +199,72 @@ class Scn:
         for i in residual:
             self.lines.append(f'R {i}')
         return '\n'.join(self.lines + ['E'])
+
+
+def mixed_scenario(rng, L, tname, sname, cfg, answers=None, npk=None, malformed_p=0.25, badblk_p=0.12, difop_at=None, dual=None,
+                   host=False, residual=True, temp_query=False, dev_query=False, big_steps=False, gap_p=0.05, start_az=None, step=None, seq0=None,
+                   dist=None, fov=None, rpm=None):
+    """one scenario: a DIFOP/MSOP stream for lidar `tname` with malformed packets interleaved"""
+    l = L[tname]
+    s = Scn(sname)
+    s.drv(0, l, cfg, answers=answers)
+    if dual is None:
+        dual = rng.random() < 0.35
+    if host:
+        s.add('H %d' % (1700000000000000 + rng.randrange(10 ** 9)))
+    hostv = 1700000123456789
+    if l.mech:
+        ms = MechStream(rng, l, dual=dual, start_az=start_az, step=step)
+        if rpm is None:
+            rpm = rng.choice([300, 600, 600, 1200, 0, 59, 61, 1500])
+        if fov is None:
+            fov = rng.choice([(0, 36000), (0, 36000), (4500, 31500), (31500, 4500), (0, 0)])
+        kd, vert, horiz, raw = cali_table(rng, l, 'valid' if rng.random() < 0.7 else None)
+        good_d = l.difop(dual=dual, rpm=rpm, fov=fov, vert=vert, horiz=horiz, raw_cali=raw)
+        bp = tname == 'RSBP' and rng.random() < 0.4
+        n = npk if npk is not None else rng.choice([2, 3, 4, 6])
+        if difop_at is None:
+            difop_at = rng.choice([0, 0, 0, 1, 2])
+        for k in range(n):
+            if k == difop_at:
+                s.pkt(0, good_d)
+            elif rng.random() < 0.2:
+                kd2, v2, h2, r2 = cali_table(rng, l)
+                s.pkt(0, l.difop(dual=rng.random() < 0.5, rpm=rng.choice([300, 600, 1200]), fov=fov, vert=v2, horiz=h2, raw_cali=r2))
+            model = rng.choice([0, 2, 3]) if tname == 'RSP80' else None
+            m = ms.msop(bpv4=bp, model=model, bad_blk=(rng.randrange(l.nblk) if rng.random() < badblk_p else None),
+                        big_steps=big_steps, gap_prob=gap_p, dist=dist)
+            if host:
+                hostv += rng.randrange(1, 5000); s.add(f'H {hostv}')
+            s.pkt(0, m)
+            if rng.random() < malformed_p:
+                kind, bad = malformed(rng, l, m, good_d)
+                s.pkt(0, bad)
+    else:
+        seq = rng.choice([0, 1, 100, 30000, 65500]) if seq0 is None else seq0
+        good_d = l.difop(dual=dual)
+        n = npk if npk is not None else (rng.choice([3, 5, 8]) if not l.jumbo else rng.choice([1, 2]))
+        for k in range(n):
+            if k == 1 or rng.random() < 0.1:
+                s.pkt(0, good_d)
+            bad_subs = tuple(i for i in range(63) if rng.random() < 0.05) if l.jumbo else ()
+            m = mems_msop(rng, l, seq, bad_subs=bad_subs)
+            if host:
+                hostv += rng.randrange(1, 5000); s.add(f'H {hostv}')
+            s.pkt(0, m)
+            seq = (seq + rng.choice([1, 1, 1, 1, 2, 10, 11, -3, -10, -11, -200]) * (63 if l.jumbo else 1)) % 65536
+            if rng.random() < malformed_p:
+                kind, bad = malformed(rng, l, m, good_d)
+                s.pkt(0, bad)
+    if temp_query:
+        s.add('T 0')
+    if dev_query:
+        s.add('G 0')
+    return s.text(residual=(0,) if residual else ())
+
+
+def rand_cfg(rng, **over):
+    kw = dict(angle=rng.choice([0, 1, 100, 9000, 18000, 35990, 35999]), pktcb=rng.randrange(2), wait=rng.randrange(2), dense=0,
+              mode=rng.choice([1, 1, 1, 2, 3]), nblk=rng.choice([1, 2, 5, 12, 13, 40]), lclock=1, tsfirst=rng.randrange(2), tz=rng.choice([0, 28800, -12600]))
+    kw.update(over)
+    return pktgen.Cfg(**kw)
